@@ -4,8 +4,10 @@
   source shape is not recognised is `none` and nothing is claimed about it (the
   behaviour-level tie through Bio/Generated/Tables.lean and the correspondence
   run remains); a fact that IS extracted must agree with the model and with the
-  observed behaviour.  Re-checked by `decide` on every run.
+  observed behaviour.  `holdsIfFound o p` is `true` for `none` and `p x` for
+  `some x`; every theorem is closed by `decide` whichever it is.
 -/
+import Bio.Lemmas.SrcFacts
 import Bio.Model.Newick
 import Bio.Generated.Src
 import Bio.Generated.Tables
@@ -16,17 +18,16 @@ def sameSet (a b : List UInt8) : Bool := a.all (b.contains ·) && b.all (a.conta
 
 /-- The quote set in `nameToText`'s source is, as a set, the set of bytes the running
 writer was observed to quote. -/
-theorem newick_quote_set : ∀ q, Src.newickQuoteChars = some q → sameSet q Generated.newickQuoteBytes = true := by
-  decide
+theorem newick_quote_set :
+    holdsIfFound Src.newickQuoteChars (fun q => sameSet q Generated.newickQuoteBytes) = true := by decide
 
 /-- The tokenizer's `switch b` cases are the model's `isStruct` / `isWS` / quote byte. -/
 theorem newick_token_classes :
-    (∀ q, Src.newickTokQuote = some q → q = [Bio.Newick.QUOTE]) ∧
-    (∀ st, Src.newickTokStruct = some st →
-      (List.range 256).all (fun n => Bio.Newick.isStruct (UInt8.ofNat n) == st.contains (UInt8.ofNat n)) = true) ∧
-    (∀ ws, Src.newickTokSpace = some ws →
-      (List.range 256).all (fun n => Bio.Newick.isWS (UInt8.ofNat n) == ws.contains (UInt8.ofNat n)) = true) := by
-  refine ⟨by decide, ?_, ?_⟩ <;> intro x hx <;> simp only [Src.newickTokStruct, Src.newickTokSpace, Option.some.injEq] at hx <;>
-    subst hx <;> decide +kernel
+    holdsIfFound Src.newickTokQuote (· == [Bio.Newick.QUOTE]) = true ∧
+    holdsIfFound Src.newickTokStruct (fun st =>
+      (List.range 256).all fun n => Bio.Newick.isStruct (UInt8.ofNat n) == st.contains (UInt8.ofNat n)) = true ∧
+    holdsIfFound Src.newickTokSpace (fun ws =>
+      (List.range 256).all fun n => Bio.Newick.isWS (UInt8.ofNat n) == ws.contains (UInt8.ofNat n)) = true := by
+  decide +kernel
 
 end Bio.SrcFacts
